@@ -15,7 +15,7 @@ for c in spec['checks']:
 		'evidence_file': f'evidence/{pid}.json',
 		'replay_cmd_template': f'./check {pid} --replay {{path}}',
 		'engine': 'tlc',
-		'level_claimed': {'category': c['category'], 'text': c['text'], 'design_ref': f'DESIGN.md section 5, {pid}'},
+		'level_claimed': {'category': c['category'], 'text': c['text'], 'design_ref': f'DESIGN.md Part A (A.2 row {pid}) and section 5, {pid}'},
 		'level_note': c['note'],
 		'technique': c['technique'],
 	})
